@@ -194,6 +194,12 @@ func (tr *Tr) havocMods(st, pre *State, mods map[string]modInfo) {
 		nt := tr.freshSym("top", false)
 		tr.sc.fact(sLe(pre.top, nt))
 		st.top = nt
+		for name, mi := range mods {
+			if mi.sort != "" {
+				tr.symTop[st.vars[name].(Sc).T] = nt
+				tr.heapVersionAxiom(name, st.vars[name].(Sc).T, mi.sort, nt)
+			}
+		}
 	}
 }
 
